@@ -112,6 +112,11 @@ func getResolutionOptions(req *http.Request) ([]document.ResolutionOption, error
 		return nil, fmt.Errorf("invalid query: %w", err)
 	}
 
+	if len(query[versionIDParam]) > 1 || len(query[versionTimeParam]) > 1 {
+		// Get returns the first value only (an empty one reads as 'not specified')
+		return nil, fmt.Errorf("'%s' and '%s' cannot be specified more than once", versionIDParam, versionTimeParam)
+	}
+
 	versionID := query.Get(versionIDParam)
 	if versionID != "" {
 		resolutionOpts = append(resolutionOpts, document.WithVersionID(versionID))
